@@ -20,6 +20,7 @@ import (
 	"sort"
 	"strconv"
 	"strings"
+	"time"
 
 	"github.com/influxdata/influxdb/v2/models"
 	"github.com/influxdata/influxdb/v2/tsdb"
@@ -221,7 +222,19 @@ func newRunner() h.CaseRunner {
 	return r
 }
 
+// Close must not hang the whole run when the code under test leaks a file-set reference
+// (Index.Close waits for every retained file): give up after a while.
 func (r *runner) Close() {
+	const closeTimeout = 15 * time.Second
+	done := make(chan struct{})
+	go func() { defer close(done); defer func() { recover() }(); r.closeNow() }()
+	select {
+	case <-done:
+	case <-time.After(closeTimeout):
+	}
+}
+
+func (r *runner) closeNow() {
 	for _, ix := range r.idx {
 		ix.Close()
 	}
